@@ -223,7 +223,7 @@ impl aa::QueueHandler for Handler {
 #[derive(Clone, Debug)]
 enum Op {
     AddQ { backlog: u32, mwpa: u32, maxw: Option<u32>, lim: Option<(Vec<u64>, u64, u64)> },
-    Tick { k: u32, scripts: Vec<(u32, Vec<SRes>)> },
+    Tick { k: u32, u: u32, t: u32, scripts: Vec<(u32, Vec<SRes>)> },
     Try { q: u32, sn: u32, mn: u32, mnw: u32, script: Vec<SRes> },
     /// None: statuses are drawn by the handlers (mood per queue set beforehand)
     Refresh { plan: Option<Vec<(u32, bool, Vec<(String, X)>)>>, mood: Mood },
@@ -278,7 +278,7 @@ fn parse_op(line: &str) -> Op {
                     })
                     .collect()
             };
-            Op::Tick { k: n(1), scripts }
+            Op::Tick { k: n(1), u: kv(&t, "u").parse().unwrap_or(0), t: kv(&t, "t").parse().unwrap_or(0), scripts }
         }
         "TRY" => Op::Try { q: n(1), sn: n(2), mn: n(3), mnw: n(4), script: parse_script(kv(&t, "scr")) },
         "REFRESH" => {
@@ -334,9 +334,9 @@ struct World {
     server: ServerRef,
     ev_rx: tokio::sync::mpsc::UnboundedReceiver<aa::Event>,
     handlers: BTreeMap<u32, Rc<RefCell<Shared>>>,
-    tasks: Vec<TaskId>,
+    tasks: [Vec<TaskId>; 3],
     next_task: u32,
-    rq_id: Option<tako::resources::ResourceRqId>,
+    rq_id: [Option<tako::resources::ResourceRqId>; 3],
     next_alloc: u64,
     next_worker: u32,
     rng: Rng,
@@ -409,9 +409,9 @@ impl World {
             server,
             ev_rx,
             handlers: BTreeMap::new(),
-            tasks: vec![],
+            tasks: [vec![], vec![], vec![]],
             next_task: 1,
-            rq_id: None,
+            rq_id: [None, None, None],
             next_alloc: 1,
             next_worker: 1,
             rng: Rng::new(seed ^ 0x5eed),
@@ -419,18 +419,30 @@ impl World {
         }
     }
 
-    fn set_demand(&mut self, k: u32) {
+    /// class 0: 1-cpu tasks (fit the queues' 1-cpu workers); class 1: 4-cpu tasks (never fit);
+    /// class 2: 1-cpu tasks with min_time 2 h (longer than the queues' 1 h time limit)
+    fn set_demand(&mut self, class: usize, k: u32) {
         let k = k as usize;
-        if self.tasks.len() > k {
-            let drop: Vec<TaskId> = self.tasks.split_off(k);
+        if self.tasks[class].len() > k {
+            let drop: Vec<TaskId> = self.tasks[class].split_off(k);
             self.server.cancel_tasks(&drop);
-        } else if self.tasks.len() < k {
-            let rq = *self.rq_id.get_or_insert_with(|| self.server.get_or_create_resource_rq_id(&ResourceRequestVariants::default()));
+        } else if self.tasks[class].len() < k {
+            if self.rq_id[class].is_none() {
+                let mut rq = tako::gateway::ResourceRequest::default();
+                match class {
+                    1 => rq.resources[0].policy = tako::resources::AllocationRequest::Compact(tako::resources::ResourceAmount::new_units(4)),
+                    2 => rq.min_time = Duration::from_secs(7200),
+                    _ => {}
+                }
+                let rqv = ResourceRequestVariants::new_simple(rq);
+                self.rq_id[class] = Some(self.server.get_or_create_resource_rq_id(&rqv));
+            }
+            let rq = self.rq_id[class].unwrap();
             let mut tasks = vec![];
-            while self.tasks.len() < k {
+            while self.tasks[class].len() < k {
                 let id = TaskId::new(1.into(), self.next_task.into());
                 self.next_task += 1;
-                self.tasks.push(id);
+                self.tasks[class].push(id);
                 tasks.push(TaskConfiguration { id, resource_rq_id: rq, shared_data_index: 0, task_deps: Default::default(), entry: None });
             }
             self.server
@@ -536,8 +548,10 @@ impl World {
                 self.handlers.insert(id, sh);
                 out.push(format!("RET {}", ret as u8));
             }
-            Op::Tick { k, scripts } => {
-                self.set_demand(*k);
+            Op::Tick { k, u, t, scripts } => {
+                self.set_demand(0, *k);
+                self.set_demand(1, *u);
+                self.set_demand(2, *t);
                 let order: Vec<u32> = self
                     .state
                     .queues()
@@ -562,7 +576,7 @@ impl World {
                     }
                 }
                 line = format!(
-                    "TICK {k} ord={} resp={} scr={}",
+                    "TICK {k} u={u} t={t} ord={} resp={} scr={}",
                     join(order.iter(), ","),
                     join(order.iter().zip(resps.iter()).map(|(q, (a, b, c))| format!("{q}:{a}:{b}:{c}")), ";"),
                     join(scripts.iter().map(|(q, s)| format!("{q}:{}", join(s.iter().map(|x| x.sym()), ","))), ";"),
@@ -709,8 +723,8 @@ fn run_op(rt: &tokio::runtime::Runtime, w: &mut World, op: &Op, fallback_line: &
 
 fn op_fallback(op: &Op) -> String {
     match op {
-        Op::Tick { k, scripts } => format!(
-            "TICK {k} ord=- resp=- scr={}",
+        Op::Tick { k, u, t, scripts } => format!(
+            "TICK {k} u={u} t={t} ord=- resp=- scr={}",
             join(scripts.iter().map(|(q, s)| format!("{q}:{}", join(s.iter().map(|x| x.sym()), ","))), ";")
         ),
         Op::Try { q, sn, mn, mnw, script } => format!("TRY {q} {sn} {mn} {mnw} scr={}", join(script.iter().map(|x| x.sym()), ",")),
@@ -826,13 +840,20 @@ fn gen_op(w: &mut World, rng: &mut Rng, style: u64) -> Op {
     };
     if r < t_tick {
         let k = *rng.pick(&[0u32, 0, 1, 1, 2, 3, 4, 6, 10, 20]);
+        // tasks that cannot run on the queues' workers: too many cpus (u) / longer than the time limit (t)
+        let (u, t) = match rng.below(10) {
+            0 | 1 => (*rng.pick(&[1u32, 3, 8]), 0),
+            2 => (0, *rng.pick(&[1u32, 2, 5])),
+            3 => (2, 2),
+            _ => (0, 0),
+        };
         let mut scripts = vec![];
         for q in &qids {
             let backlog = w.state.get_queue(*q).map(|x| x.info().backlog()).unwrap_or(1) as usize;
             let s = gen_script(w, rng, backlog.min(8) + 1, p_fail);
             scripts.push((*q, s));
         }
-        Op::Tick { k, scripts }
+        Op::Tick { k, u, t, scripts }
     } else if r < t_try {
         let q = pick_q(rng);
         let mwpa = w.state.get_queue(q).map(|x| x.info().max_workers_per_alloc()).unwrap_or(1);
